@@ -225,7 +225,19 @@ def check(run):
         run.count('len=%d' % min(len(c['evs']), 9))
         for e in c['evs']:
             run.count('ev_' + e[0] + ('' if e[1] is None else '+arg'))
+    # second tie: the model regenerated from the source (class Counter) equals the hand-written one
+    gen_problem = common.generated_model(run, 'gen_counter.py', 'GenCounter.v', 'GenCounterProofs.v')
+    run.assumptions.append("tools/gen_counter.py (fail-closed Python-ast translator of class Counter, ~190 lines) "
+                           "is trusted to render the accepted statement shapes faithfully")
     common.standard_flow(run, spec, cases)
+    if gen_problem is not None:
+        run.add_obligation(False)
+        if not any(v['concrete'] for v in run.violations):
+            run.violation('translation', dict(correspondence='Gen/GenCounterProofs.v: generated_step_is_model, '
+                                              'generated_start_is_model, generated_create_is_model'),
+                          gen_problem, clause='generated_model', concrete=False)
+        else:
+            run.notes.append("generated model: " + gen_problem[:500])
 
 
 def replay(run, path):
